@@ -556,6 +556,13 @@ func TestC03Delivery(t *testing.T) {
 	rapid.Check(t, func(rt *rapid.T) {
 		rapid.SyncTest(rt, func(rt *rapid.T) {
 			s := drawScript(rt)
+			if rapid.IntRange(0, 5).Draw(rt, "slow-server") == 0 {
+				// A slow but well-formed stream: the server pauses inside one packet for longer
+				// than the read timeout (which bounds the wait for a packet, not its transfer).
+				s.pauseIn = map[int]int{rapid.IntRange(0, len(s.items)-1).Draw(rt, "paused-item"): rapid.IntRange(0, 1000).Draw(rt, "pause-at")}
+				s.pauseGap = ch.DefaultReadTimeout + 500*time.Millisecond
+				st.Label("pause-inside-a-packet")
+			}
 			out, e := runScript(rt, s, nil, nil)
 			defer e.conn.ForceClose()
 			judgeC03(rt, s, out)
